@@ -94,7 +94,7 @@ ben("log_merge_tie_rounds_up", CM, "                if delta / (vhigher - vlower
 ben("log_add_counts_only_applied_units_at_ceiling", CM,
     "    # Track total number of elements added to the sketch\n    n_added_records[0] += uint64(value)\n\n    # This gets min_count AND updates buckets\n    min_count = _query_log8(cms, buckets, width, depth, uint_maxval, key)\n",
     "    # This gets min_count AND updates buckets\n    min_count = _query_log8(cms, buckets, width, depth, uint_maxval, key)\n    if min_count < uint_maxval:\n        n_added_records[0] += uint64(value)\n",
-    ["C05", "C06", "C12", "C09"])
+    ["C05", "C06", "C09"])  # not benign for C12: bulk add and single adds then disagree on n_added
 ben("hh_query_ties_sorted_by_key", HH, "        return self.candidate_set.most_common(k)", "        return sorted(self.candidate_set.items(), key=lambda kv: (-kv[1], kv[0]))[:k]", ["C13", "C03", "C04", "C16"])
 ben("save_extra_member_hll", HL, "            filename, args=np.array([self.p, self.seed], np.uint64), hll=self.registers", "            filename, args=np.array([self.p, self.seed], np.uint64), hll=self.registers, fmt=np.array([1])", ["C10", "C20", "C02"])
 ben("death_reported_as_runtime_error", HP, "                # Now close all the queues\n                queue.close()\n                log_queue.close()", "                # Now close all the queues\n                queue.close()\n                log_queue.close()\n                raise RuntimeError(msg)", ["C19", "C08"])
